@@ -348,17 +348,57 @@ func runDKG(s scen) *result {
 		res.hist[fmt.Sprintf("hyp-violated-recover-error-%v", err != nil)]++
 		return res
 	}
-	// the aggregated key's public key is the one every party derives for that id
-	for i := 0; i < n; i++ {
-		for h := 0; h < n; h++ {
-			pk := dkgs[h].GetPublicKeyByID(ids[i])
-			if !pk.IsEqual(dkgs[i].Si.GetPublicKey()) || !pk.IsEqual(dkgs[i].Pi) {
+	// the aggregated key's public key is the one every party derives for that id, and its signature
+	// verifies there -- after the first aggregation and after every repetition of a step of the API
+	// on the same objects (aggregation is a function of the received shares)
+	checkKeys := func(stage string) {
+		for i := 0; i < n; i++ {
+			sg := dkgs[i].Sign(s.Msg)
+			for h := 0; h < n; h++ {
+				pk := dkgs[h].GetPublicKeyByID(ids[i])
 				m := s
 				m.Tampers, m.Recs = nil, nil
-				res.fail("agg-pubkey-mismatch", fmt.Sprintf("party %d derives another public key for party %d than its aggregated key has", h, i), m)
+				if !pk.IsEqual(dkgs[i].Si.GetPublicKey()) || !pk.IsEqual(dkgs[i].Pi) {
+					res.fail("agg-pubkey-mismatch", fmt.Sprintf("%s: party %d derives another public key for party %d than its aggregated key has", stage, h, i), m)
+				}
+				if !dkgs[h].VerifySignature(sg, s.Msg, ids[i]) {
+					res.fail("agg-sig-not-verified", fmt.Sprintf("%s: signature of party %d rejected by party %d", stage, i, h), m)
+				}
+			}
+		}
+		res.hist["keys-checked-"+stage]++
+	}
+	checkKeys("first aggregation")
+	for i := 0; i < n; i++ {
+		dkgs[i].AggregateSecretKeyShares()
+		if err := dkgs[i].AggregatePublicKeyShares(mpkMap); err != nil {
+			res.fail("agg-pub-error", err.Error(), s)
+		}
+	}
+	checkKeys("second aggregation")
+	for i := 0; i < n; i++ {
+		for j := 0; j < n; j++ {
+			// the same share again (not forced: equal shares are accepted), and the share derived again
+			again, err := dkgs[j].ComputeDKGKeyShare(ids[i])
+			if err != nil || !again.IsEqual(&shares[j][i]) {
+				res.fail("share-not-reproducible", fmt.Sprintf("dealer %d derives another share for party %d the second time", j, i), s)
+			}
+			if err := dkgs[i].AddSecretShare(ids[j], again.GetHexString(), false); err != nil {
+				res.fail("add-share-error", "adding the same share again: "+err.Error(), s)
+			}
+		}
+		dkgs[i].AggregateSecretKeyShares()
+		dkgs[i].AggregateSecretKeyShares()
+		if err := dkgs[i].AggregatePublicKeyShares(mpkMap); err != nil {
+			res.fail("agg-pub-error", err.Error(), s)
+		}
+		for k, pk := range dkgs[i].GetMPKs() {
+			if !pk.IsEqual(&mpks[i][k]) {
+				res.fail("mpk-changed", fmt.Sprintf("public polynomial of party %d changed", i), s)
 			}
 		}
 	}
+	checkKeys("aggregation after re-adding the same shares")
 	// signatures
 	sigs := make([]*bls.Sign, n)
 	var coqVers []string
